@@ -22,6 +22,7 @@ RULE = ("random inputs per loader: manual = random dict; empirical = random obse
         "the direct constructor and the dispatcher (all seven JointDegreeType values for the path-equality clause); "
         "non-trivial = support >= 4 points and >= 2 distinct probabilities; distinct = SHA-1 of the concrete input")
 RULE += ("; rounds k-l added: " + 'use-then-read histories: a joint degree sequence is sampled from the loader (1, 30, 3000 tuples in 30% of the loads; 10**6 tuples in 3 (quick) / 12 (thorough) dedicated cases) before its distribution is read again')
+RULE += "; round n: the loader's table handed to other tools of the library (excess distributions, mean joint degree) before it is read again (30% of the loads)"
 ASSUMPTIONS = ["marginal support: S = product of S_i with [kmin_i, kmax_i-1] <= S_i <= [kmin_i, kmax_i] (half-open or closed both accepted)",
                "sampling mode decided by Pearson chi-square, p>=1e-4 held, one escalation with 4x samples, p<1e-6 violated",
                "exact comparisons at 1e-12"]
@@ -126,6 +127,21 @@ def run_case(case):
             res.violate("dispatcher-returned-wrong-loader", typ=typ, got=type(via).__name__); return None
         j1, j2 = d.jdd, via.jdd
         use_n = (10 ** 6 + rng.randrange(1000)) if case.get("big_sample") else (rng.choice([1, 30, 3000]) if rng.random() < 0.3 else 0)
+        if isinstance(j1, dict) and j1 and rng.random() < 0.3:
+            # the table the loader exposes is handed to other tools of the library (excess distributions, mean joint degree) before it is
+            # read again: it is still what the loader's inputs describe
+            snap0 = dict(j1)
+            for nm, fn in (("JointExcessfromJDD.get_joint_excess_distributions", gcmpy.JointExcessfromJDD.get_joint_excess_distributions),
+                           ("AverageJointDegreeFromJDD.get_average_joint_degrees", gcmpy.AverageJointDegreeFromJDD.get_average_joint_degrees)):
+                try:
+                    fn(d.jdd)
+                    res.count("loader_tables_handed_to_other_tools_before_being_read")
+                except Exception:      # noqa: BLE001 - those tools have their own property (C14)
+                    res.count("other_tools_that_raised_on_a_loader_table")
+            j1 = d.jdd
+            if not (isinstance(j1, dict) and _same(j1, snap0)):
+                res.violate("another-tool-of-the-library-changed-the-distribution-the-loader-exposes", typ=typ, before=repr(sorted(snap0.items()))[:300],
+                            after=repr(sorted(j1.items()))[:300] if isinstance(j1, dict) else repr(j1)[:200]); return None
         if use_n and isinstance(j1, dict) and j1 and hasattr(d, "sample_jds_from_jdd"):
             # the loader is USED (a joint degree sequence is sampled from it) before its distribution is read: what it exposes is still what
             # its inputs describe.  Sampling itself is C05's business; a failure of it is only counted here.
